@@ -204,7 +204,9 @@ func TestRandom(t *testing.T) {
 						st = []any{"WFlush3Cancel", st[1]}
 					}
 				case "ImplRespond":
-					if rc.LateP > 0 && rng.Intn(100) < rc.LateP {
+					if k.aborted[toInt(st[1])] {
+						st = []any{"ImplAbort", st[1]}
+					} else if rc.LateP > 0 && rng.Intn(100) < rc.LateP {
 						st = []any{"ImplReturn", st[1]}
 					}
 				}
